@@ -5,6 +5,22 @@ from systems import gen_A, gen_K, gen_baseline, apply_K
 from p17 import in_conv_lp
 
 
+def nearest_boundary(P, Q, m):
+    """indices of the m rows of Q (chromaticities) that are closest to / farthest beyond the boundary of conv(P), ranked with the facet planes of
+    an independently computed hull in the first nf-1 coordinates (an interval for dichromats). Only used to CHOOSE which rows of a large
+    set are judged by the LP membership test."""
+    if P.shape[1] == 2:
+        v = np.maximum(Q[:, 0] - P[:, 0].max(), P[:, 0].min() - Q[:, 0])
+    else:
+        try:
+            from scipy.spatial import ConvexHull
+            h = ConvexHull(P[:, :-1])
+            v = (Q[:, :-1] @ h.equations[:, :-1].T + h.equations[:, -1]).max(1)
+        except Exception:  # noqa: BLE001
+            v = np.max(np.abs(Q - P.mean(0)), axis=1)
+    return [int(i) for i in np.argsort(v)[-m:]]
+
+
 def run(R):
     import dreye
     nsys = 40 if R.tier == "quick" else 500
@@ -17,7 +33,9 @@ def run(R):
               "light-induced parts under relative=True), all-zero rows (with targets "
               "outside the gamut and with all other targets already inside), single-target sets, whole-number target sets handed "
               "in with an integer dtype, Fortran-ordered / strided target arrays, default and explicit (non-uniform) neutral "
-              "points inside the gamut, relative and absolute capture. Call histories: every call on a fresh estimator, or all "
+              "points inside the gamut, relative and absolute capture; one system in ten additionally (case <k>_L) with a LARGE target set (an image of 4097..12288 rows: non-negative "
+              "mixtures of the small set's rows at random brightness, in random order or sorted by saturation -- calm region first; chromatic scaling only; totals, "
+              "hue and the common factor are judged on every row, gamut membership by LP on 40 random rows and the 8 rows nearest to the gamut boundary, maximality on the 32 nearest). Call histories: every call on a fresh estimator, or all "
               "calls of a system on ONE estimator -- 1-3 intensity scalings with random relative/absolute flags and the chromatic "
               "scaling in random order (the answers must not depend on earlier calls; registered state is compared before/after "
               "every call). Intensity scaling (every call of the history) is compared with the exact model; for chromatic scaling "
@@ -138,12 +156,39 @@ def run(R):
                 R.driver.ask("l%s_%d" % (k, i), "l1scale", ms(Aq), vs(bq), vs(ub), ms(Bt))
         st3, o3 = call(est().in_hull, Bt[Bt.sum(1) > 0].copy(), relative=relative, normalized=True)
         jobs.append((c, Ap, bp, sysd, flags, l1res, st2, o2, st3, o3, neutral))
+        # LARGE target sets (whole images: more than 4096 and up to 3*4096 rows -- the property does not bound the number of targets), for one
+        # system in ten IN ADDITION to its small set (own random stream, own case key <k>_L): every row is a non-negative mixture
+        # w*b_i + (1-w)*b_j of two rows of the small set, times a random brightness (w = 0 or 1 for a fifth of the rows: the small set's own
+        # rows, all-zero rows included, recur), so the saturations are spread continuously between inside and outside the gamut. Row order:
+        # random, or sorted by the distance of the chromaticity from that of the in-gamut captures (an image with a smooth saturation
+        # gradient: calm region first, the most saturated pixels last). Only the chromatic scaling is called on a large set (fresh estimator).
+        grng = R.rng(17, si)
+        large = "no"
+        if si % 10 == 3:
+            N = int(grng.integers(4097, 3 * 4096 + 1))
+            i1 = grng.integers(len(Bt), size=N); i2 = grng.integers(len(Bt), size=N)
+            w = dyadic(grng, 0, 1, 10, size=N); pure = grng.integers(5, size=N) == 0
+            w[pure] = np.round(w[pure])
+            Bl = (w[:, None] * Bt[i1] + (1 - w[:, None]) * Bt[i2]) * (2.0 ** grng.integers(-2, 3, size=N))[:, None]
+            large = str(grng.choice(["random order", "saturation gradient"]))
+            if large == "saturation gradient":
+                ref = Bin.mean(0) / Bin.mean(0).sum()
+                tot = Bl.sum(1)
+                dist = np.where(tot > 0, np.max(np.abs(Bl / np.where(tot > 0, tot, 1.0)[:, None] - ref), axis=1), 0.0)
+                Bl = Bl[np.argsort(dist, kind="stable")]
+            cL = dict(c, k=k + "_L", B=Bl, mode=mode + "+large", history="fresh", calls=["dist"], large=large)
+            Blg = as_given(grng, Bl, R, "B-large", kinds=("same", "int", "fortran", "strided"))
+            stL, oL = call(est().gamut_dist_scaling, Blg, neutral_point=(None if neutral is None else neutral.copy()), relative=relative)
+            st3L, o3L = call(est().in_hull, Bl[Bl.sum(1) > 0].copy(), relative=relative, normalized=True)
+            R.count("rows:%d" % len(Bl))
+            jobs.append((cL, Ap, bp, sysd, [], {}, stL, oL, st3L, o3L, neutral))
+        R.count("large_target_set(>4096 rows):%s" % large)
     R.driver.run()
     for c, Ap, bp, sysd, flags, l1res, st2, o2, st3, o3, neutral in jobs:
         k = c["k"]; nf = c["nf"]; Bt = c["B"]
         sig = "C12:nf=%d:%s" % (nf, "rel" if c["relative"] else "abs")
         outside_any = (st3 == "ok") and (not np.all(o3))
-        R.case(c, (k,) if ((nf >= 3 and outside_any) or nf == 2) else None, sample=(outside_any and nf >= 3))
+        R.case(c, (k,) if ((nf >= 3 and outside_any) or nf == 2) else None, sample=(outside_any and nf >= 3 and len(Bt) <= 64))
         # ---- intensity scaling: every call of the history against the model of ITS flag
         for i, r in enumerate(flags):
             st1, o1 = l1res[i]
@@ -214,7 +259,11 @@ def run(R):
             if np.sum(np.abs(p)) > 0:
                 P.append(p / p.sum())
         P = np.array(P)
-        for i in range(len(oh)):
+        rows = range(len(oh))
+        if len(oh) > 64:
+            # large set: a random sample of 40 rows and the 8 rows nearest to / beyond the gamut boundary are judged (one LP each)
+            rows = sorted(set(int(i) for i in R.rng(19, int(k[1:].split("_")[0])).permutation(len(oh))[:40]) | set(nearest_boundary(P, oh, 8)))
+        for i in rows:
             if not in_conv_lp(P, oh[i], 1e-6):   # qhull's facet planes are accurate to ~1e-7; the gamut margin is 1e-6
                 R.failB(dict(c, impl=o2, row=i), "a scaled chromaticity lies outside the system's chromatic gamut", sig + ":dist:outside-gamut")
                 break
@@ -222,6 +271,7 @@ def run(R):
             if alphas and min(alphas) < 1 - 1e-9:
                 # pushing every chromaticity 1e-4 further out must leave the gamut for at least one sample
                 a = min(alphas)
-                esc = any(not in_conv_lp(P, chat + (a * (1 + 1e-3)) * (bh[i] - chat), 1e-9) for i in range(len(bh)))
+                cand = range(len(bh)) if len(bh) <= 64 else nearest_boundary(P, chat + (a * (1 + 1e-3)) * (bh - chat), 32)   # large set: the 32 pushed chromaticities nearest to / beyond the boundary
+                esc = any(not in_conv_lp(P, chat + (a * (1 + 1e-3)) * (bh[i] - chat), 1e-9) for i in cand)
                 if not esc:
                     R.failB(dict(c, impl=o2, alpha=a), "the common contraction %.6g is not maximal: all chromaticities stay inside when it is increased by 1e-3" % a, sig + ":dist:not-on-boundary")
